@@ -72,8 +72,8 @@ func findU(name string) *uEntry {
 	return nil
 }
 
-var coderBehs = []string{"one", "one-arr", "zero", "two", "partial", "pop-repush", "pop-unsup", "pop2-repush", "unsup", "unsup-after", "err", "err-after", "reset", "options"}
-var coderBehsU = []string{"one", "one-tok", "zero", "two", "partial", "pop-repush", "pop-unsup", "pop2-repush", "unsup", "unsup-after", "err", "err-after", "reset", "options"}
+var coderBehs = []string{"one", "one-arr", "zero", "two", "partial", "pop-repush", "pop-unsup", "pop2-repush", "unsup", "unsup-after", "unsup-open", "err", "err-after", "reset", "options"}
+var coderBehsU = []string{"one", "one-tok", "zero", "two", "partial", "pop-repush", "pop-unsup", "pop2-repush", "unsup", "unsup-after", "unsup-open", "err", "err-after", "reset", "options"}
 var bytesBehsM = []string{"one", "one-arr", "zero", "two", "partial", "invalid", "unsup", "err"}
 var textBehsM = []string{"one", "empty", "unsup", "err"}
 var bytesBehsU = []string{"one", "unsup", "err"}
